@@ -88,6 +88,13 @@ def run(ctx):
     for k, (bi, t) in util.ordinal_keys(adds, lambda it: "update_map|update_value"):
         pvv = m.provenance(t["args"][5], through_calls=True)
         ctx.ob("R9-map", k, pvv.depends_on_param(tg), t["sp"], "value written is taken from the target map")
+    # ---------------- the target is traversed on every successful path (a key/element of the target that is never looked at cannot be written)
+    for name, body_, param, iter_fn in (("update_map", m, tg, "automerge::hydrate::map::Map::iter"), ("update_list", b, tgt, "automerge::hydrate::list::List::iter")):
+        its = [bi for bi, t in body_.calls() if norm_fn(t.get("fn")) == iter_fn and body_.provenance(t["args"][0]).depends_on_param(param)]
+        oks = [bi for bi, blk in enumerate(body_.blocks) for s in blk["st"] if s["d"]["l"] == 0 and not s["d"]["p"] and util.is_ok_agg(s["rv"])]
+        ok = bool(its) and bool(oks) and all(any(body_.block_dominates(i, o) for i in its) for o in oks)
+        ctx.ob("R9-map" if name == "update_map" else "R9-del-index", "%s|target traversed on every Ok path" % name, ok, body_.rec["sp"],
+               "target.iter() dominates Ok" if ok else "Ok can be returned without iterating over the target value (new keys / elements of the target would never be written)")
     # ---------------- update_value dispatch
     v = ctx.body(UPDATE_VALUE)
     tv = param_of_type(v, "automerge::hydrate::Value")
